@@ -67,17 +67,23 @@ func handleDigestAuthFunc(username, password string) ResponseMiddleware {
 			req.Header.Set(header.ContentType, ct)
 		}
 		req.Header.Set(header.Authorization, auth)
+		// the body cached from the 401 response must not be served for the new response,
+		// nor the results that were bound from it
+		resp.body = nil
+		resp.result = nil
+		resp.error = nil
 		resp.Response, err = client.GetTransport().RoundTrip(&req)
 		if err != nil {
 			return err
 		}
-		// the body cached from the 401 response must not be served for the new response
-		resp.body = nil
 		if !client.disableAutoReadResponse && !r.isSaveResponse && !r.disableAutoReadResponse && resp.StatusCode > 199 {
 			resp.ToBytes()
 			resp.Body = io.NopCloser(bytes.NewReader(resp.body))
 		}
-		return resp.Err
+		if resp.Err != nil {
+			return resp.Err
+		}
+		return parseResponseBody(client, resp)
 	}
 }
 
